@@ -352,8 +352,32 @@ def http_loopback_problems(rng, R):
         except Exception:
             pass
         msgs += harvested
+        # a message object posted again right after one of its fields has been changed (the synchronous mixin re-stamps the
+        # cycle of a message it posts again): what arrives must be the object as it is when posted
+        reposts = []
+        for m in list(msgs):
+            if len(reposts) >= 4:
+                break
+            keys = [k for k, v in getattr(m, "__dict__", {}).items() if isinstance(v, (int, str)) and not isinstance(v, bool) and k not in ("_msg_type",)]
+            if keys:
+                reposts.append((m, rng.choice(keys)))
+        # a message of a few megabytes (a UTIL table over a wide separator, a large metrics dictionary)
+        try:
+            cls_big = [c_ for _, _, c_, f_ in message_type_classes() if len(f_) >= 1][0]
+            f_big = [f_ for _, _, c_, f_ in message_type_classes() if c_ is cls_big][0]
+            msgs.append(cls_big(**{f: ([float(i % 997) + 0.5 for i in range(260000)] if j == 0 else 1) for j, f in enumerate(f_big)}))
+        except Exception:
+            pass
         sent = []
-        for m in msgs:
+        queue = [(m, None) for m in msgs]
+        for m, key in reposts:
+            queue.append((m, None))
+            queue.append((m, key))
+        for m, key in queue:
+            if key is not None:
+                old = m.__dict__[key]
+                m.__dict__[key] = old + 1 if isinstance(old, int) else old + "_changed"
+                R.count("http_reposts_of_a_changed_message")
             prio = rng.choice([5, 10, 15, 20])
             try:
                 A._messaging.post_msg("src", "sink", m, prio)
